@@ -208,7 +208,20 @@ def _directed(node, datum, modes=MODES):
     return run
 
 
+def _confusable_literals(ctx):
+    """All spellings of {0|False} x {1|True} side by side in ONE type (one retort builds all their loaders)."""
+    sets = [(0, 1), (False, True), (0, True), (False, 1), (1, 0), (True, False), ("x", 0, True), ("x", False, True)]
+    for order in (sets, list(reversed(sets))):
+        node = spec.TupleT([spec.LiteralT(m) for m in order])
+        prog = Program(node)
+        bag = []
+        for vals in ([0] * 8, [False] * 8, [1] * 8, [True] * 8, [0, False, 0, False, 1, True, 0, False], ["x"] * 8):
+            bag.append((repr(vals), (lambda vals=vals: list(vals)), False))
+        check_program(ctx, None, node, prog, [tuple(m[0] for m in order), tuple(m[-1] for m in order)], bag)
+
+
 DIRECTED = {
+    "confusable-literals-in-one-type": _confusable_literals,
     "literal-bytes-strict": _directed(spec.LiteralT((b"abc", 1)), "YWJj"),
     "scalar-table": lambda ctx: [check_program(ctx, None, n, Program(n), [], [(lbl, fac, lbl in ("iter([1,2])", "generator")) for lbl, fac in __import__("vlib.hostile", fromlist=["POOL"]).POOL])
                                  for n in spec._SCALARS],
